@@ -3,7 +3,7 @@ NOTES = ("Contract-based deductive verification: Verus on functions extracted me
          "Kani/CBMC on the real crates (scratch copy + add-only cfg(kani) overlay). exit 2 = undecided (lost anchor, "
          "timeout, unsupported construct), never a VIOLATION. See DESIGN.md.")
 ENGINES = [
-    {"name": "E1-verus", "path": "engine/rsx.py, engine/verus.py, units/, contracts/", "serves_properties": ["C01", "C03"],
+    {"name": "E1-verus", "path": "engine/rsx.py, engine/verus.py, units/, contracts/", "serves_properties": ["C01", "C03", "C06"],
      "kind_free_text": "mechanical extraction + spec splicing -> single-file Verus (z3); unbounded proofs"},
     {"name": "E2-kani", "path": "engine/overlay.py, contracts/*/kani*.rs", "serves_properties": [],
      "kind_free_text": "cargo kani (CBMC) on a scratch copy of the real crates with an add-only cfg(kani) overlay"},
@@ -18,6 +18,14 @@ CHECKS = {
         "note": "Trusted: Verus/z3, vstd BTreeSet specs, lawful Ord on index arrays, stand-in TermIndex contract (the real SimpleTermIndex is only checked against it by bounded Kani), R0/R2 rewrites. Pattern queries and bulk defaults are not under contract (stated in evidence.not_covered).",
         "technique": "deductive verification (Verus contracts + data-structure invariant + set lemmas) of mechanically extracted code",
     },
+    "C06": {
+        "engine": "E1-verus",
+        "category": "proof",
+        "text": "Kernel-only: Verus proves (unbounded, all element types and callbacks) that the permutation kernel used by Hash N-Degree Quads terminates, only ever hands permutations of its input to the callback and leaves a permutation behind. The composition of the RDFC-1.0 algorithm is not decided by this check.",
+        "design_ref": "DESIGN.md 5 (C06)",
+        "note": "Trusted: Verus/z3, assumed spec of <[T]>::swap, vstd multiset lemmas. NOT covered: completeness (n! distinct arrangements), steps 3-5 of the canonicalisation algorithm, Hash N-Degree Quads, issuer, canonical N-Quads escaping.",
+        "technique": "deductive verification (Verus requires/ensures/decreases, loop invariant, FnMut call obligations) of mechanically extracted code",
+    },
     "C03": {
         "engine": "E1-verus",
         "category": "proof",
@@ -27,4 +35,4 @@ CHECKS = {
         "technique": "deductive verification (Verus pre/postconditions, loop invariants, lemmas) of mechanically extracted code",
     },
 }
-NOT_APPLICABLE = {p: PENDING for p in ["C02", "C04", "C05", "C06", "C07", "C08", "C09", "C10", "C11", "C12", "C13", "C14", "C15", "C16", "C17", "C18", "C19", "C20"]}
+NOT_APPLICABLE = {p: PENDING for p in ["C02", "C04", "C05", "C07", "C08", "C09", "C10", "C11", "C12", "C13", "C14", "C15", "C16", "C17", "C18", "C19", "C20"]}
